@@ -1,42 +1,78 @@
-(* C15 — the FULL no-deadlock statement is false of the faithful model (and of
-   the code: the witness below was replayed on the real bus, see
-   known_findings/C15.json).  Cycle: a multi-type Subscribe has joined its first
-   node and needs basicBus.lk for the second; an Emit on the first type holds
-   n.lk and is stalled on the new subscription's channel, which nobody can read
-   or close because Subscribe has not returned; a third operation (Emitter(),
-   Subscribe, tryDropNode) holds basicBus.lk while waiting for n.lk. *)
+(* C15 — after fix 8aeecd5 (do not wait for a node lock while holding the bus
+   lock): basicBus.lk only protects sections that cannot block, so in the model
+   it is never held across steps, tryDropNode never waits, and the schedule that
+   used to deadlock (half-registered multi-type Subscribe + Emit stalled on it +
+   bus-lock waiter) now lets the Subscribe return. *)
 From Coq Require Import List Arith ZArith Bool.
-From Verif Require Import c15.Lts c15.Model c15.Proofs_Init.
+From Verif Require Import c15.Lts c15.Model c15.Proofs_Chan c15.Proofs_Loc c15.Proofs_Init c15.Proofs_Live.
 Import ListNotations.
 
-Definition emit_in_flight (e : emit) : bool := match epc e with E0 | EDone => false | _ => true end.
-Definition sub_in_flight (c : sub) : bool :=
-  (match spc c with S0 | SDone => false | _ => true end) || (match cpc c with K0 | KDone => false | _ => true end)
-  || existsb (fun b : bool => b) (rpend c).
-Definition emitter_in_flight (m : emitter) : bool :=
-  (match mnew m with 1 | 2 | 3 => true | _ => false end) || (match mcl m with C0 | C5 => false | _ => true end).
-Definition in_flight (st : state) : bool :=
-  existsb emit_in_flight (emits st) || existsb sub_in_flight (subs st) || existsb emitter_in_flight (emitters st).
+Lemma try_drop_total : forall st ty, exists st', try_drop st ty = Some st'.
+Proof.
+  intros st ty. unfold try_drop.
+  repeat match goal with |- context[match ?x with _ => _ end] => destruct x end; eauto.
+Qed.
 
-(* the subscription whose channel a sender is stalled on has been handed to its
-   caller (Subscribe returned), so a consumer or Close can release the sender *)
-Definition handed_out (st : state) (x : nat) : bool :=
-  match nth_error (subs st) x with Some c => (match spc c with SDone => true | _ => false end) | None => false end.
-Definition emit_stalled_on_handed_out (st : state) (e : emit) : bool :=
-  match epc e with ESend _ (x :: _) | EWSend _ (x :: _) => handed_out st x | _ => false end.
-Definition sub_replay_stalled_on_handed_out (st : state) (c : sub) : bool :=
-  existsb (fun b : bool => b) (rpend c) && (match spc c with SDone => true | _ => false end).
-Definition releasable (st : state) : bool :=
-  existsb (emit_stalled_on_handed_out st) (emits st) || existsb (sub_replay_stalled_on_handed_out st) (subs st).
+Lemma with_node_blk : forall st ty st1 n, with_node st ty = Some (st1, n) -> blk st1 = blk st.
+Proof.
+  intros st ty st1 n E. unfold with_node in E. destruct (lookup st ty) as [sl m] eqn:El.
+  destruct (nth_error (nodes sl) m); inversion E; subst. cbn.
+  unfold lookup in El. destruct (nth_error (bmap st) ty) as [[k|]|]; inversion El; reflexivity.
+Qed.
 
-(* nothing but environment stimuli is enabled, operations are in flight, and no
-   consumer or Close can release any of them *)
-Definition deadlocked (st : state) : bool :=
-  quiescent step thrs stim st && in_flight st && negb (releasable st).
+Lemma try_drop_blk : forall st ty st', try_drop st ty = Some st' -> blk st' = blk st.
+Proof. intros st ty st' E. unfold try_drop in E. brute E; inversion E; subst; reflexivity. Qed.
 
-Definition no_deadlock_full : Prop :=
-  forall st sched, initial st -> deadlocked (run step st sched) = false.
+Lemma send_blk : forall st s it st', send st s it = Some st' -> blk st' = blk st.
+Proof. intros st s it st' E. unfold send in E. brute E; inversion E; subst; reflexivity. Qed.
 
+Lemma step_blk : forall st t l st', step st t = Some (l, st') -> blk st' = blk st.
+Proof.
+  intros st t l st' E. destruct t; cbn in E.
+  - unfold step_emnew in E. destruct (nth_error (emitters st) j) as [m|]; [|discriminate].
+    destruct (mnew m) as [|[|[|[|?]]]]; try discriminate.
+    + inversion E; reflexivity.
+    + destruct (with_node st (mty m)) as [[st1 n]|] eqn:Ew; [|discriminate]. inversion E; subst. cbn. apply (with_node_blk _ _ _ _ Ew).
+    + brute E; inversion E; subst; reflexivity.
+    + inversion E; reflexivity.
+  - unfold step_emclose in E. destruct (nth_error (emitters st) j) as [m|]; [|discriminate].
+    destruct (mcl m); try discriminate; try (brute E; inversion E; subst; reflexivity).
+    otau_inv E. cbn. apply (try_drop_blk _ _ _ E).
+  - unfold step_emit in E. destruct (nth_error (emits st) k) as [e|]; [|discriminate].
+    destruct (nth_error (emitters st) (eem e)) as [m|]; [|discriminate].
+    destruct (epc e) as [| | |n [|x r]|n|n|n [|x r]|c|]; try discriminate;
+      try (brute E; inversion E; subst; reflexivity); otau_inv E; cbn; apply (send_blk _ _ _ _ E).
+  - unfold step_sub in E. destruct (nth_error (subs st) s) as [c|]; [|discriminate].
+    destruct (spc c); try (brute E; inversion E; subst; reflexivity).
+    destruct (styps c) as [tys|]; [|discriminate]. destruct (nth_error tys i) as [ty|]; [|discriminate].
+    destruct (with_node st ty) as [[st1 n]|] eqn:Ew; [|discriminate]. inversion E; subst. cbn. apply (with_node_blk _ _ _ _ Ew).
+  - unfold step_replay in E. destruct (nth_error (subs st) s) as [c|]; [|discriminate].
+    destruct (nth_error (rpend c) i) as [[|]|]; try discriminate.
+    destruct (nth_error (snodes c) i) as [n|]; [|discriminate].
+    destruct (nth_error (nodes st) n) as [nd|]; [|discriminate].
+    destruct (keep nd); [destruct (nlast nd)|]; try (inversion E; subst; reflexivity).
+    otau_inv E. pose proof (send_blk _ _ _ _ E) as B. destruct (nth_error (subs x) s); cbn; exact B.
+  - unfold step_close in E. destruct (nth_error (subs st) s) as [c|]; [|discriminate].
+    destruct (cpc c); try discriminate; try (brute E; inversion E; subst; reflexivity).
+    destruct (nth_error (snodes c) i) as [n|]; [|discriminate]. destruct (nth_error (nodes st) n) as [nd|]; [|discriminate].
+    otau_inv E. cbn. apply (try_drop_blk _ _ _ E).
+  - unfold step_drain in E. brute E; inversion E; subst; reflexivity.
+  - unfold step_req in E. brute E; inversion E; subst; reflexivity.
+  - unfold step_recv in E. brute E; inversion E; subst; reflexivity.
+  - unfold step_read in E. brute E; inversion E; subst; reflexivity.
+Qed.
+
+(* basicBus.lk is never held across a step: nobody ever waits for it *)
+Lemma bus_lock_never_held_l : forall st sched, initial st -> blk (run step st sched) = None.
+Proof.
+  intros st sched [_ [_ [_ [Hb _]]]].
+  apply (invariant_run _ _ _ step (fun s => blk s = None)); [|exact Hb].
+  intros a t l b Ha E. rewrite (step_blk _ _ _ _ E). exact Ha.
+Qed.
+
+(* the former deadlock schedule (known finding of the unrepaired tree), continued:
+   the third operation no longer holds the bus lock, the Subscribe returns, and
+   closing it releases the stalled Emit *)
 Definition dl_init : state :=
   init_state 2 [new_sub (Some [1]) 0; new_sub (Some [1; 0]) 0]
              [new_emitter 1 false; new_emitter 1 false] [new_emit 0 100%Z; new_emit 0 101%Z].
@@ -45,31 +81,22 @@ Definition dl_sched : list thr :=
   [TEmNew 0; TEmNew 0; TEmNew 0; TEmNew 0;
    TSub 0; TSub 0; TSub 0; TReplay 0 0; TSub 0;
    TEmit 0; TEmit 0; TEmit 0;              (* Emit(100): holds n.lk, stalled on sub0 *)
-   TSub 1; TSub 1;                          (* Subscribe([T1,T0]): holds b.lk, waits for n.lk *)
-   TEmNew 1;                                (* Emitter(T1): waits for b.lk *)
+   TSub 1; TSub 1;                          (* Subscribe([T1,T0]): looked T1's node up (pending), waits for n.lk *)
+   TEmNew 1; TEmNew 1;                      (* Emitter(T1): looked the node up (pending), waits for n.lk *)
    TEmit 1; TEmit 1;                        (* Emit(101): waits for n.lk *)
    TReq 0; TEmit 0; TRecv 0; TRead 0; TEmit 0; TEmit 0; TEmit 0;   (* consumer of sub0 reads 100 *)
-   TSub 1;                                  (* joins T1's node, releases b.lk, needs it again for T0 *)
-   TEmNew 1;                                (* takes b.lk, waits for n.lk *)
+   TSub 1;                                  (* joins T1's node *)
    TReplay 1 0;
    TEmit 1;                                 (* takes n.lk: sinks = [sub0; sub1] *)
    TReq 0; TEmit 1; TRecv 0; TRead 0;       (* consumer of sub0 reads 101 *)
-   TEmit 1].                                (* stalled on sub1, whose Subscribe cannot return *)
+   TEmit 1;                                 (* stalled on sub1's channel, holding n.lk *)
+   TSub 1; TSub 1; TReplay 1 1; TSub 1;     (* the Subscribe finishes with T0 and RETURNS *)
+   TClose 1; TEmit 1; TDrain 1; TEmit 1; TEmit 1; TEmit 1;   (* Close(sub1): drainer releases the Emit, which returns *)
+   TEmNew 1; TEmNew 1].                     (* Emitter(T1) gets n.lk and returns *)
 
-Lemma no_deadlock_refuted_l : ~ no_deadlock_full.
-Proof.
-  intros H.
-  assert (I : initial dl_init)
-    by exact (init_state_initial 2 [(Some [1], 0); (Some [1; 0], 0)] [new_emitter 1 false; new_emitter 1 false] [(0, 100%Z); (0, 101%Z)]).
-  specialize (H dl_init dl_sched I). vm_compute in H. discriminate.
-Qed.
-
-(* what the witness state looks like *)
-Lemma dl_state_l :
+Lemma former_deadlock_completes_l :
   let st := run step dl_init dl_sched in
-  (exists c, nth_error (subs st) 1 = Some c /\ spc c = SBus 1 /\ buf c = [] /\ ccap c = 0 /\ want c = 0) /\
-  (exists e, nth_error (emits st) 1 = Some e /\ epc e = ESend 0 [1]) /\
-  (exists nd, nth_error (nodes st) 0 = Some nd /\ holder nd = Some (TEmit 1)) /\
-  blk st = Some (TEmNew 1) /\
-  step st (TSub 1) = None /\ step st (TEmit 1) = None /\ step st (TEmNew 1) = None.
-Proof. vm_compute. repeat split; eexists; repeat split. Qed.
+  (exists c, nth_error (subs st) 1 = Some c /\ spc c = SDone) /\
+  (exists e, nth_error (emits st) 1 = Some e /\ epc e = EDone) /\
+  (exists m, nth_error (emitters st) 1 = Some m /\ mnew m = 4) /\ panicked st = false.
+Proof. vm_compute. repeat split; eexists; split; reflexivity. Qed.
